@@ -46,8 +46,8 @@ pub enum Mut {
 
 #[derive(Clone, Debug, Serialize, Deserialize)]
 pub struct Input {
-    base: Base,
-    muts: Vec<Mut>,
+    pub base: Base,
+    pub muts: Vec<Mut>,
 }
 
 const MAGNITUDES: &[&str] = &[
